@@ -260,6 +260,32 @@ def real_run(chk, M, D, days, dt, epw_name):
             if inside and (new[k][:6] != orig[k][:6] or new[k][9:21] != orig[k][9:21]):
                 msg = ('unmodelled cells of row %d changed' % k, new[k][:22], orig[k][:22])
                 break
+    if not msg:
+        # the same object generated and simulated AGAIN (after write_epw, same rural file, same
+        # window): hour n must still be forced by rural row n of the file, not by anything the
+        # first run wrote
+        try:
+            with contextlib.redirect_stdout(io.StringIO()):
+                # (a new, un-instrumented object: the logging rows above would hide in-place writes)
+                model = simdriver.build_model(M, D, days, dt, epw=rural, new_epw_dir=work,
+                                              new_epw_name='out2_%d_%d_%d.epw' % (M, D, dt))
+                model.simulate()
+                model.write_epw()
+                model.generate()
+                model.simulate()
+            for n in range(N):
+                src = orig[24 * j0 + n]
+                wd = model.WeatherData[n]
+                exp = {'temp': float(src[6]) + 273.15, 'rHum': float(src[8]), 'pres': float(src[9]),
+                       'wind': max(float(src[21]), wmin)}
+                got = {f: getattr(wd, f) for f in exp}
+                if got != exp:
+                    msg = ('second generate+simulate on the same object (after write_epw): hourly forcing '
+                           'record %d differs from rural row %d of the file' % (n, n), got, exp)
+                    break
+        except Exception as e:  # noqa: BLE001
+            msg = ('second generate+simulate on the same object raised %s' % type(e).__name__, str(e)[:200],
+                   'a complete second run')
     return cases, msg, stamps_ok, nrows
 
 
